@@ -167,7 +167,13 @@ def run_case(case: dict) -> dict:
             sigs.append([list(shape), role, kind, offset_class])
 
         how_many = 10 ** 9 if case["exhaustive"] else (26 if len(files) <= 14 else 8)
+        import time
+        budget_end = time.monotonic() + (420.0 if case["exhaustive"] else 150.0)
         for rel, role in files:
+            if time.monotonic() > budget_end:
+                # the exhaustive enumeration is cut at a time budget; what was covered is what is reported
+                obs["files_skipped_time_budget"] += 1
+                continue
             path = root / rel
             original = path.read_bytes()
             size = len(original)
@@ -175,6 +181,9 @@ def run_case(case: dict) -> dict:
             try:
                 # bit flips
                 for off in offsets(size, rng, how_many):
+                    if time.monotonic() > budget_end:
+                        obs["offsets_cut_time_budget"] += 1
+                        break
                     bits = range(8) if (case["exhaustive"] and role != "shard") else [rng.randrange(8)]
                     for bit in bits:
                         data = bytearray(original)
@@ -186,6 +195,8 @@ def run_case(case: dict) -> dict:
                 lengths = range(size) if case["exhaustive"] else sorted(
                     {0, 1, size - 1, size // 2} | {rng.randrange(size) for _ in range(8)} if size else set())
                 for length in lengths:
+                    if time.monotonic() > budget_end:
+                        break
                     if 0 <= length < size:
                         path.write_bytes(original[:length])
                         attempt(rel, role, "truncate", "empty" if length == 0 else "partial", f"truncated to {length}/{size}")
